@@ -24,6 +24,8 @@ pub enum AnyTarget<T: Float> {
     GaussND(GaussND),
     StudentT { nu: f64 },
     Quartic,
+    /// steep linear log-density slope * sum(x): gradient components of magnitude `slope` (1e6 and beyond); leapfrog is exact on it
+    Linear { slope: f64 },
     /// Gamma(2,1) per coordinate: ln x - x : NaN left of 0, -inf at 0 (C14)
     LogX,
     /// sqrt-domain: -x^2/2 + ln(sqrt(x)) : NaN for x < 0 (C14)
@@ -45,6 +47,7 @@ where
             AnyTarget::GaussND(g) => <GaussND as BatchedGradientTarget<T, B>>::unnorm_logp_batch(g, p),
             AnyTarget::StudentT { nu } => p.powi_scalar(2).div_scalar(*nu).add_scalar(1.0).log().sum_dim(1).squeeze::<1>(1).mul_scalar(-(*nu + 1.0) / 2.0),
             AnyTarget::Quartic => p.powi_scalar(4).sum_dim(1).squeeze::<1>(1).mul_scalar(-0.25),
+            AnyTarget::Linear { slope } => p.sum_dim(1).squeeze::<1>(1).mul_scalar(*slope),
             AnyTarget::LogX => (p.clone().log() - p).sum_dim(1).squeeze::<1>(1),
             AnyTarget::SqrtDom => (p.clone().powi_scalar(2).mul_scalar(-0.5) + p.sqrt().log()).sum_dim(1).squeeze::<1>(1),
             AnyTarget::Box1 => {
@@ -127,6 +130,10 @@ pub fn ref_of<T: Float>(t: &AnyTarget<T>) -> RefT {
             }
         }
         AnyTarget::Quartic => RefT { kind: "Quartic".into(), f: std::sync::Arc::new(|x| x.iter().map(|v| -0.25 * v.powi(4)).sum()), g: std::sync::Arc::new(|x| x.iter().map(|v| -v.powi(3)).collect()) },
+        AnyTarget::Linear { slope } => {
+            let sl = *slope;
+            RefT { kind: "Linear".into(), f: std::sync::Arc::new(move |x| x.iter().map(|v| sl * v).sum()), g: std::sync::Arc::new(move |x| x.iter().map(|_| sl).collect()) }
+        }
         AnyTarget::LogX => RefT { kind: "LogX".into(), f: std::sync::Arc::new(|x| x.iter().map(|v| v.ln() - v).sum()), g: std::sync::Arc::new(|x| x.iter().map(|v| 1.0 / v - 1.0).collect()) },
         AnyTarget::SqrtDom => RefT { kind: "SqrtDom".into(), f: std::sync::Arc::new(|x| x.iter().map(|v| -0.5 * v * v + v.sqrt().ln()).sum()), g: std::sync::Arc::new(|x| x.iter().map(|v| -v + 0.5 / v).collect()) },
         AnyTarget::Box1 => RefT {
@@ -345,6 +352,8 @@ fn targets<T: Float + std::fmt::Debug + num_traits::FloatConst>(thorough: bool) 
         (AnyTarget::StudentT { nu: 2.0 }, vec![1, 2, 3, 16]),
         (AnyTarget::Quartic, vec![1, 2, 16]),
         (AnyTarget::GaussND(GaussND::new(3, 0)), vec![3]),
+        (AnyTarget::Linear { slope: 2e6 }, vec![1, 2]),
+        (AnyTarget::Linear { slope: -1e12 }, vec![1]),
     ];
     if thorough {
         v.push((AnyTarget::Gauss2D(DiffableGaussian2D::new([f(-1.0), f(0.5)], [[f(1.0), f(0.0)], [f(0.0), f(1.0)]])), vec![2]));
